@@ -1,7 +1,7 @@
 (* C16 — Compiled bytecode behaves like the tree-walking evaluator.
    Property theorems only; proofs are [exact <lemma of CompileProofs>]. *)
 From Coq Require Import ZArith NArith List String.
-From EvyV Require Import Base Bytecode SymTab Vm Compile CompileProofs CompileWfProofs CompileStmtProofs.
+From EvyV Require Import Base Bytecode SymTab Vm VmProofs Compile CompileProofs CompileWfProofs CompileStmtProofs CompileJumpProofs CompileHoleProofs CompileCtlProofs CompileSemProofs.
 Import ListNotations.
 Open Scope list_scope.
 
@@ -99,6 +99,33 @@ Theorem C16_compile_correct_straightline : forall (p : slist) (st : cstate) (env
 Proof. exact compile_correct_straightline. Qed.
 Print Assumptions C16_compile_correct_straightline.
 
+(* ---------- statements with control flow are compiled correctly ---------- *)
+(* Fragment psfrag: a top-level sequence of declarations `x := e` and of
+   statements built from assignments `x = e` to globals, `if c … [else …] end`
+   (one condition; no else-if) and `while c … end`, arbitrarily nested, all
+   expressions in efrag (_partial: no else-if chains, break, for loops,
+   block-local declarations, arrays/maps).  The semantics exec_l is a
+   fuel-indexed big-step semantics defined in CompileSemProofs.v on top of
+   eval_expr (IEEE primitive floats); a while loop consumes fuel per iteration.
+   For every such program: if the compiler succeeds and the semantics is
+   defined for SOME fuel (the program terminates without a run-time error),
+   the VM model started by NewVM on the compiled program runs to the end of
+   the code, halts there with an empty operand stack, and every global slot
+   holds the value the semantics gives that variable.  Proof: the compiler's
+   byte-level back-patching is shown to produce the layout LAY (lay_all), and
+   the simulation sim_all goes by induction on the fuel, re-entering a loop at
+   its start pc after the back jump. *)
+Theorem C16_compile_correct_ctl_partial : forall (p : slist) (st : cstate) (fuel : nat) (env' : genv),
+  psfrag p = true -> compile p = COk st -> exec_l fuel p (fun _ => None) = Some env' ->
+  (ldepth p <= Gen.Opcodes.StackSize)%N ->
+  let prog := program_of (bytecode_of st) in
+  exists s, reaches prog (vm_init prog) s /\
+            vm_step prog s = Halted s /\ ostack s = [] /\
+            forall n y v, st_resolve n (csym st) = Some y -> env' n = Some v ->
+                          nth_error (globals s) (N.to_nat (sidx y)) = Some v.
+Proof. exact compile_correct_ctl. Qed.
+Print Assumptions C16_compile_correct_ctl_partial.
+
 (* ---------- the compiler's output is well formed (straight-line fragment) ---------- *)
 (* For every top-level program made of declarations `x := e` and assignments
    `x = e` with e in the expression fragment: IF THE COMPILER SUCCEEDS, what it
@@ -137,7 +164,106 @@ Proof.
 Qed.
 Print Assumptions C16_compile_wf_large_before_fix.
 
+(* ---------- the compiler's output is well formed: code with jumps ---------- *)
+(* Fragment pfrag2: a top-level sequence of declarations `x := e`, of
+   `for x := range …` loops WITH a loop variable (step ranges and iterables;
+   at top level the compiler makes x a global), and of statements of the
+   control-flow fragment cfrag — assignments `x = e` to globals, if / else-if /
+   else chains, while, break, `for range …` WITHOUT a loop variable —
+   arbitrarily nested, with all expressions in the expression fragment efrag
+   (so: no declarations and no loop variables INSIDE blocks, i.e. LocalCount
+   = 0, and no arrays/maps/index/slice — _partial).  For
+   every such program: if the compiler succeeds and leaves no pending break
+   (a break outside a loop, which the parser rejects), its output satisfies
+   WF — every jump operand the compiler back-patches (condition exits, end-of-if
+   jumps, loop-back jumps, breaks) lands on an instruction boundary inside the
+   program, and the stack states agree at every join (incl. the OpDrop of the
+   range loops).  No size guard: out-of-range operands and jump targets are
+   compile errors at HEAD (e351c68). *)
+Theorem C16_compile_wf_ctl_partial : forall (p : slist) (st : cstate),
+  pfrag2 p = true -> compile p = COk st -> cbreaks st = [] ->
+  WF {| bcode := out_code (bytecode_of st); nconsts := N.of_nat (List.length (out_consts (bytecode_of st)));
+        gcount := out_gcount (bytecode_of st); lcount := out_lcount (bytecode_of st) |}.
+Proof. exact compile_wf_ctl2. Qed.
+Print Assumptions C16_compile_wf_ctl_partial.
+
+(* … hence C17's VM-safety theorem applies to everything the compiler
+   produces for the fragment: no stack underflow, no out-of-range operand, no
+   fetch off an instruction boundary, sp = LocalCount at the end. *)
+Theorem C16_compile_vm_safe_ctl_partial : forall (p : slist) (st : cstate),
+  pfrag2 p = true -> compile p = COk st -> cbreaks st = [] ->
+  let prog := program_of (bytecode_of st) in
+  forall s, reachable prog s ->
+    (plcount prog <= sp_of s)%N /\
+    match vm_step prog s with
+    | Running _ | Failed _ => True
+    | Halted s' => ip s' = N.of_nat (List.length (pcode prog)) /\ sp_of s' = plcount prog
+    | Crashed c => c = CType
+    end.
+Proof.
+  intros p st HF HC HB prog. apply wf_vm_safe_partial.
+  unfold prog, info_of, program_of. cbn [pcode pconsts pgcount plcount]. rewrite map_length.
+  apply (compile_wf_ctl2 p st HF HC HB).
+Qed.
+Print Assumptions C16_compile_vm_safe_ctl_partial.
+
 (* ---------- non-vacuity ---------- *)
+Definition ex_ctl : slist :=
+  SCons (SDecl (s_ "x") (ENum (float_of_Z 0)))
+ (SCons (SDecl (s_ "s") (EStr (s_ "ab")))
+ (SCons (SWhile (EBool true)
+          (SCons (SAssign (EVar (s_ "x")) (EBin BPlus TNum TNum (EVar (s_ "x")) (ENum (float_of_Z 1))))
+          (SCons (SIf (EBin BGt TNum TNum (EVar (s_ "x")) (ENum (float_of_Z 3))) (SCons SBreak SNil)
+                      (CCons (EBin BEq TNum TNum (EVar (s_ "x")) (ENum (float_of_Z 2)))
+                             (SCons (SForIter None TStr (EVar (s_ "s"))
+                                       (SCons (SIf (EBool false) (SCons SBreak SNil) CNil NoElse) SNil)) SNil) CNil)
+                      (Else (SCons (SForStep None ONoneE (ENum (float_of_Z 2)) ONoneE
+                                      (SCons (SAssign (EVar (s_ "x")) (EBin BPlus TNum TNum (EVar (s_ "x")) (ENum (float_of_Z 0)))) SNil)) SNil))) SNil)))
+ (SCons (SForStep (Some (s_ "i")) ONoneE (ENum (float_of_Z 3)) ONoneE
+          (SCons (SIf (EBin BEq TNum TNum (EVar (s_ "i")) (ENum (float_of_Z 2))) (SCons SBreak SNil) CNil NoElse)
+          (SCons (SAssign (EVar (s_ "x")) (EBin BPlus TNum TNum (EVar (s_ "x")) (EVar (s_ "i")))) SNil))) SNil))).
+
+(* x := 0; s := 0; while x < 5: x = x + 1; if x % 2 == 1: s = s + x else s = s - 1 end end *)
+Definition ex_sem : slist :=
+  SCons (SDecl (s_ "x") (ENum (float_of_Z 0)))
+ (SCons (SDecl (s_ "t") (ENum (float_of_Z 0)))
+ (SCons (SWhile (EBin BLt TNum TNum (EVar (s_ "x")) (ENum (float_of_Z 5)))
+          (SCons (SAssign (EVar (s_ "x")) (EBin BPlus TNum TNum (EVar (s_ "x")) (ENum (float_of_Z 1))))
+          (SCons (SIf (EBin BEq TNum TNum (EBin BPercent TNum TNum (EVar (s_ "x")) (ENum (float_of_Z 2))) (ENum (float_of_Z 1)))
+                      (SCons (SAssign (EVar (s_ "t")) (EBin BPlus TNum TNum (EVar (s_ "t")) (EVar (s_ "x")))) SNil)
+                      CNil
+                      (Else (SCons (SAssign (EVar (s_ "t")) (EBin BMinus TNum TNum (EVar (s_ "t")) (ENum (float_of_Z 1)))) SNil))) SNil))) SNil)).
+
+Example C16_ex_sem_defined :
+  psfrag ex_sem = true /\ (ldepth ex_sem <= Gen.Opcodes.StackSize)%N /\
+  match exec_l 40 ex_sem (fun _ => None) with
+  | Some env => env (s_ "x") = Some (VNum (float_of_Z 5)) /\ env (s_ "t") = Some (VNum (float_of_Z 7))
+  | None => False
+  end /\
+  match compile ex_sem with
+  | COk st => match vm_run 2000 (program_of (bytecode_of st)) (vm_init (program_of (bytecode_of st))) with
+              | FHalted s => nth_error (globals s) 1 = Some (VNum (float_of_Z 7))
+              | _ => False
+              end
+  | CErr _ => False
+  end.
+Proof. vm_compute. repeat split; try reflexivity. discriminate. Qed.
+
+Example C16_ex_ctl_fragment :
+  pfrag2 ex_ctl = true /\
+  match compile ex_ctl with
+  | COk st => cbreaks st = [] /\
+      (let bc := bytecode_of st in
+       wf_check {| bcode := out_code bc; nconsts := N.of_nat (List.length (out_consts bc));
+                   gcount := out_gcount bc; lcount := out_lcount bc |} = true) /\
+      match vm_run 2000 (program_of (bytecode_of st)) (vm_init (program_of (bytecode_of st))) with
+      | FHalted s => nth_error (globals s) 0 = Some (VNum (float_of_Z 5))
+      | _ => False
+      end
+  | CErr _ => False
+  end.
+Proof. vm_compute. repeat split; reflexivity. Qed.
+
 Example C16_ex_straightline_semantics :
   let p := SCons (SDecl (s_ "x") (ENum (float_of_Z 7)))
           (SCons (SDecl (s_ "b") (EBin BLt TNum TNum (EBin BPlus TNum TNum (EVar (s_ "x")) (ENum (float_of_Z 2))) (ENum (float_of_Z 30))))
